@@ -248,6 +248,7 @@ def run(ctx):
         s = spec_program(c)
         if not same_verdict(s, i):
             spec_fail.append((c, s, i))
+    spec_fail.sort(key=lambda t: (len(t[0]["vals"]), abs(t[0]["vals"][0])))
     for c, s, i in spec_fail[:5]:
         ctx.report(f"lit:{c['pos']}:{','.join(c['tys'])}:{','.join(map(str, c['vals']))}", "counterexample",
                    "literal at type: implementation differs from the range/value specification",
